@@ -6,6 +6,14 @@
 //	                        testing/synctest bubble; Close / context cancellation at a
 //	                        generated virtual instant; termination bound, restart bound
 //	                        and callback trace judged on the recorded events.
+//	                        errkind.go: the KIND of error value each failing step of the
+//	                        scripted transport returns (error lists, wrapped sentinels,
+//	                        cancellation look-alikes, typed nil, ...); a second, always
+//	                        failing client type tried in parallel (Scenario.Decoy).
+//	        part "lifetime" life.go: the same machinery under a generated SEQUENCE of
+//	                        Subscribe / cancel / Close / Poll calls on one client object
+//	                        (Subscribe again after Close or cancellation, Close twice,
+//	                        Close or Poll before any Subscribe, cancelled contexts).
 //	half B (real transport) transport.go: the real gNMI Impl against an in-process gRPC
 //	                        server with a scripted Subscribe handler; order-only oracle.
 package clientprop
